@@ -16,7 +16,7 @@ DELAYS = [0, 0, 0, 1e-3, 0.05, 0.1 - E, 0.1, 0.1 + E, 0.15, 0.3, 1.0]
 SHORT = [0, 0, 1e-3, 0.05, 0.1]
 ASYNC_KINDS = ['async', 'async', 'async', 'amethod', 'aclassm', 'abusm']
 SYNC_KINDS = ['sync', 'smethod', 'sclassm', 'sbusm']
-EXCS = ['ValueError', 'KeyError', 'RuntimeError', 'Custom', 'LoopClosed', 'NoLoop', 'OSError', 'ZeroDivisionError', 'Unhashable', 'TwoArg', 'Chained', 'Unprintable', 'StopIter']
+EXCS = ['ValueError', 'KeyError', 'RuntimeError', 'Custom', 'LoopClosed', 'NoLoop', 'OSError', 'ZeroDivisionError', 'Unhashable', 'TwoArg', 'Chained', 'Unprintable', 'StopIter', 'Falsy', 'FalsyBool']
 EXCS_ALL = EXCS + ['TimeoutError']  # a user-raised TimeoutError is treated by the library as a handler timeout (cancels pending child results)
 
 DEFAULT = dict(
@@ -213,7 +213,27 @@ def capacity_scenario(rng: random.Random, i: int) -> dict:
 
 
 def spawn_scenario(rng: random.Random, i: int) -> dict:
-    return random_scenario(rng, cfg(p_spawn=0.25, nb=(1, 3)))
+    if rng.random() < 0.5:
+        return random_scenario(rng, cfg(p_spawn=0.25, nb=(1, 3)))
+    sc = random_scenario(rng, cfg(p_spawn=0.25, nb=(1, 3), levels=2))
+    if True:
+        # a fire-and-forget task that OUTLIVES the handler that created it and only then - everything idle, the lock free - dispatches
+        # and awaits an event; long afterwards ordinary two-bus traffic: a handler on one bus awaits a slow child while an unrelated
+        # event arrives on another bus. Whatever the stale task did to shared state must not show then.
+        if len(sc['buses']) < 2:
+            sc['buses'].append({'name': 'B9', 'par': False, 'lazy': False, 'sub': False, 'hist': None})
+        nb = len(sc['buses'])
+        a, b = rng.sample(range(nb), 2)
+        t0 = rng.choice([3.0, 5.0])
+        sc['handlers'].append({'bus': a, 'pat': 2, 'kind': 'async', 'prog': [['spawn', [['sleep', rng.choice([0.3, 1.0])], ['disp', 3, rng.choice([a, b]), 'await', None, {}]]]]})
+        sc['handlers'].append({'bus': a, 'pat': 3, 'kind': 'async', 'prog': [['sleep', rng.choice([0, 0.05])]]})
+        sc['handlers'].append({'bus': b, 'pat': 3, 'kind': 'async', 'prog': [['sleep', rng.choice([0, 0.05])]]})
+        sc['handlers'].append({'bus': a, 'pat': 4, 'kind': 'async', 'prog': [['disp', 5, a, 'await', None, {}]]})
+        sc['handlers'].append({'bus': a, 'pat': 5, 'kind': 'async', 'prog': [['sleep', 0.4]]})
+        sc['handlers'].append({'bus': b, 'pat': 5, 'kind': 'async', 'prog': [['sleep', 0.05]]})
+        sc['actors'].append([['disp', 2, a, 'await', 0, {}], ['sleep', t0], ['disp', 4, a, 'await', 0, {}]])
+        sc['actors'].append([['sleep', t0 + rng.choice([0.1, 0.2])], ['disp', 5, b, 'await', 0, {}]])
+    return sc
 
 
 def dupfwd_scenario(rng: random.Random, i: int) -> dict:
@@ -757,6 +777,20 @@ def later_scenario(rng: random.Random, i: int) -> dict:
     sc = {'seed': rng.randrange(1 << 30), 'buses': buses, 'fwd': [], 'handlers': hs, 'actors': actors}
     if rng.random() < 0.5:
         sc['loop'] = {'jitter': 1e-7}
+    return sc
+
+
+def rehydrated_scenario(rng: random.Random, i: int) -> dict:
+    """Handlers (and top-level code) dispatch event objects rebuilt from dumps of finished events (event_processed_at set, no results);
+    the children of every event are looked at when its processing ends."""
+    sc = random_scenario(rng, cfg(nb=(1, 3), p_fwd=0.25, p_par=0.25, levels=4, actor_await=0.6, p_raise=0.05, modes=['fire', 'fire', 'await', 'later']))
+    sc['watch_children'] = True
+    for prog in [h['prog'] for h in sc['handlers']] + list(sc['actors']):
+        for op in prog:
+            if op[0] == 'disp' and rng.random() < 0.4:
+                while len(op) < 6:
+                    op.append(None)
+                op[5] = dict(op[5] or {}, rehydrated=True)
     return sc
 
 
